@@ -3,6 +3,7 @@ Spec: Feed.tla (PriceFeed::update as the code orders its checks), FeedProps.tla 
 MC_Feed (bounded model, monitors as action properties), Trace_Feed (TLC trace validation of the
 real zero-copy PriceFeed driven through the cfg-guarded hooks with a stubbed clock)."""
 import vlib
+from props import c24
 
 
 def classify(e, mon):
@@ -12,7 +13,7 @@ def classify(e, mon):
 
 
 def _judge(ctx, name, path, driver):
-    fails, drifts, _ = ctx.validate_trace("Trace_Feed", path)
+    fails, drifts = c24.validate_chunked(ctx, "Trace_Feed", path)
     ev = vlib.read_ndjson(path)
     for f in fails:
         e = ev[f["i"] - 1]
